@@ -70,13 +70,15 @@ def check_case(chk: Check, case, exp, *, groups_independent=True, exp_variant=No
     cid = case_id(case)
     rep = {"engine": "c02", "case": case}
     chk.evaluations += 1
-    vec, tags, add = expected_penalty_vector(exp)
     try:
         pen, o, w = real_objective(case, free_model_params=True)
     except Exception as ex:  # noqa: BLE001
         chk.violation(f"Objective[raises {type(ex).__name__}]: {feats}", f"objective_function raised {type(ex).__name__}: {str(ex)[:300]} on an in-premise case {cid}", rep)
         return
     chk.traces += 1
+    orders = {gi: [float(v) for v in g._data_provider.aligned_global_axis] for gi, g in enumerate(o._optimization_groups)
+              if hasattr(g._data_provider, "aligned_global_axis")}
+    vec, tags, add = expected_penalty_vector(exp, orders)
     pen = np.asarray(pen, dtype=float)
     if len(pen) != len(vec):
         chk.violation(f"Objective[length]: {feats}", f"penalty vector has {len(pen)} entries, specification {len(vec)} (case {cid})", rep)
@@ -108,8 +110,13 @@ def check_case(chk: Check, case, exp, *, groups_independent=True, exp_variant=No
             if b["kind"] != "index":
                 continue
             if linked:
-                full = list(mp.aligned_full_clp_labels[bi])
-                red = list(mp.get_aligned_matrix_container(bi).clp_labels)
+                order = orders.get(gi) or []
+                if float(b["g"]) not in order:
+                    chk.violation(f"Objective[aligned axis]: {feats}", f"group {gi}: aligned point {b['g']} missing from the aligned axis {order} (case {cid})", rep)
+                    continue
+                ii = order.index(float(b["g"]))      # the implementation's position of this aligned point
+                full = list(mp.aligned_full_clp_labels[ii])
+                red = list(mp.get_aligned_matrix_container(ii).clp_labels)
             else:
                 k, li, _ = b["members"][0]
                 full = list(mp.get_matrix_container(names[k - 1]).clp_labels)
@@ -124,7 +131,7 @@ def check_case(chk: Check, case, exp, *, groups_independent=True, exp_variant=No
         labels1, x1 = x_of(case1)
         if list(labels1) != list(o._free_parameter_labels):
             raise MachineryError("variant changes the parameter labels")
-        vec1, tags1, _ = expected_penalty_vector(exp_variant)
+        vec1, tags1, _ = expected_penalty_vector(exp_variant, orders)
         try:
             with warnings.catch_warnings():
                 warnings.simplefilter("ignore")
@@ -144,7 +151,7 @@ def check_case(chk: Check, case, exp, *, groups_independent=True, exp_variant=No
     if groups_independent and len(case["groups"]) > 1:
         start = 0
         for gi, e in enumerate(exp):
-            v1, _, _ = expected_penalty_vector([e])
+            v1, _, _ = expected_penalty_vector([e], {0: orders.get(gi)})
             sub = subcase(case, gi)
             try:
                 p1, _, _ = real_objective(sub)
@@ -192,7 +199,9 @@ def run(tier: str, replay=None) -> int:
         return chk.finish()
     from .lattice import variant
     n = 1500 if tier == "quick" else 15000
-    cases = [gen_case(rng) for _ in range(n)]
+    from .objective import alignment_family
+    fam = alignment_family()
+    cases = [gen_case(rng) for _ in range(n - len(fam))] + fam
     variants = [variant(c) for c in cases]
     vidx = [i for i, v in enumerate(variants) if v is not None]
     exp_all, tot = tlc_expected(cases + [variants[i] for i in vidx], shards=8 if tier == "quick" else 14)
